@@ -2002,7 +2002,7 @@ func c04ConsumersTotal(c *Ctx) {
 		// token consumers only: func(token string, …) (T, error) — the functions the machines call as opaque consumers. Other helpers are
 		// inlined into the machines and their accesses to the rest of the input are decided there (C04.R5 input-access).
 		sig, _ := c.FuncObj(fd).Type().(*types.Signature)
-		if sig == nil || sig.Results().Len() != 2 || !types.Identical(sig.Results().At(1).Type(), types.Universe.Lookup("error").Type()) || sig.Params().Len() == 0 || !isStringType(sig.Params().At(0).Type()) {
+		if sig == nil || sig.Results().Len() != 2 || !types.Identical(sig.Results().At(1).Type(), types.Universe.Lookup("error").Type()) || sig.Params().Len() == 0 || !hasTokenParam(sig) {
 			continue
 		}
 		n++
@@ -2148,4 +2148,9 @@ func (c *Ctx) constCharsOf(fd *ast.FuncDecl, base string, max int) string {
 		walkP(p)
 	}
 	return out
+}
+
+func hasTokenParam(sig *types.Signature) bool {
+	_, ok := tokenParam(sig)
+	return ok
 }
